@@ -1,7 +1,7 @@
 (* Case operations of the correspondence protocol (harness/PROTOCOL.md), interpreted on the
    model.  Everything the OCaml runner executes goes through [run_op]. *)
 From Coq Require Import Bool ZArith Lia List FMapPositive.
-From K Require Import Model.Machine Model.Bus Model.Cost Model.Addressing Model.Alu Model.Exec Model.Periph.
+From K Require Import Model.Machine Model.Bus Model.Cost Model.Addressing Model.Alu Model.Exec Model.Periph Model.Run.
 Import ListNotations.
 Open Scope bool_scope. Open Scope Z_scope.
 
@@ -11,6 +11,7 @@ Inductive op :=
 | OW8 (addr v : Z) | OR8 (addr : Z)
 | OPort (p v : Z)
 | OStep | OStepN (n : Z) | OIrq (v : Z) | OBnd | OInt (v : Z) | OTick (n : Z)
+| ORun (fuel : Z) (script : list (list (list Z)))   (* Cpu::run with a scripted control socket *)
 | OWr (sz addr v : Z) | ORd (sz addr : Z).   (* 16/32-bit big-endian access through the CPU helpers *)
 
 Inductive res := ROk | ROkV (v : Z) | RErr | RPanic.
@@ -31,6 +32,14 @@ Definition run_op (o : op) (s : cpu) : res * cpu :=
   | OBnd => of_m try_interrupt (fun _ => ROk) s
   | OInt v => of_m (interrupt v) (fun _ => ROk) s
   | OTick n => (ROk, update_timer n s)
+  | ORun fuel script =>
+    match run (Z.to_nat fuel) script s with
+    | Some (Finished s') => (ROk, s')
+    | Some (Failed s') => (RErr, s')
+    | Some Crashed => (RPanic, s)
+    | Some (Continue r) => (RErr, c_cpu (r_ctl r))
+    | None => (RPanic, s)       (* out of fuel: reported like a crash, never expected *)
+    end
   | OPrice k n a => (of_opt (calc_state_with_addr (cbus s) k n a), s)
   | OPricePc k n => (of_opt (calc_state (cbus s) (opc s) k n), s)
   | OW8 a v => match bus_write (cbus s) a v with Some b => (ROk, set_bus b s) | None => (RErr, s) end
@@ -61,7 +70,7 @@ Definition init_bus (tag : option Z) : bus :=
         (mk_store tag RAM_START) (mk_store tag IO2_START) (snew (fun _ => 0)) (snew (fun _ => 0)) 0 [] timer0.
 
 Definition init_cpu (tag : option Z) (ovf_ sock_ : bool) : cpu :=
-  mkCpu 0 0 0 regs0 (init_bus tag) [] 0 0 ovf_ sock_ [].
+  mkCpu 0 0 0 regs0 (init_bus tag) [] 0 0 ovf_ sock_ [] false.
 
 (* direct poke of one byte into the backing store (no side effects); None if unmapped *)
 Definition poke (b : bus) (a v : Z) : option bus :=
